@@ -285,7 +285,7 @@ impl Deserializable for TraceInfo {
         let aux_segment_width = source.read_u8()? as usize;
 
         let full_trace_width = main_segment_width + aux_segment_width;
-        if full_trace_width >= TraceInfo::MAX_TRACE_WIDTH {
+        if full_trace_width > TraceInfo::MAX_TRACE_WIDTH {
             return Err(DeserializationError::InvalidValue(format!(
                 "full trace width cannot be greater than {}, but was {}",
                 TraceInfo::MAX_TRACE_WIDTH,
@@ -295,9 +295,10 @@ impl Deserializable for TraceInfo {
 
         // read and validate number of random elements for the auxiliary trace segment
         let num_aux_segment_rands = source.read_u8()? as usize;
-        if aux_segment_width != 0 && num_aux_segment_rands == 0 {
+        if aux_segment_width == 0 && num_aux_segment_rands != 0 {
             return Err(DeserializationError::InvalidValue(
-                "a non-empty trace segment must require at least one random element".to_string(),
+                "number of random elements for an empty auxiliary trace segment must be zero"
+                    .to_string(),
             ));
         } else if num_aux_segment_rands > TraceInfo::MAX_RAND_SEGMENT_ELEMENTS {
             return Err(DeserializationError::InvalidValue(format!(
